@@ -1002,6 +1002,11 @@ Fixpoint shadows_run (mode : N) (s : state path) (ops : list op) : bool :=
   end.
 Definition Known_C36_dual_listing_duplicate_name (mode : N) (ops : list op) : bool := shadows_run mode init ops.
 
+(* register_table with an empty location: a later drop_table removes base_path.child("") = the whole catalog *)
+Definition register_empty (o : op) : bool :=
+  match o with ORegisterTable _ [] => true | _ => false end.
+Definition Known_C36_register_empty_location (ops : list op) : bool := existsb register_empty ops.
+
 (* listings served by the manifest ignore page_token and limit *)
 Definition paging_ignored (mode : N) (o : op) : bool :=
   match o with
